@@ -390,7 +390,7 @@ uint64_t alloc_hint(const Bytes &img) {
 	}
 	// a header that could not be delimited may still carry huge NAXISn cards
 	for (size_t off = 0; off + 80 <= img.size() && off < 64 * 2880; off += 80) {
-		if (memcmp(img.data() + off, "NAXIS", 5) == 0) {
+		if (memcmp(img.data() + off, "NAXIS", 5) == 0 || memcmp(img.data() + off, "ORDER", 5) == 0) {
 			Card c = parse_card(std::string((const char *)img.data() + off, 80));
 			if (c.has_value && !c.is_string && c.value.size() > 7) return UINT64_MAX;
 		}
@@ -398,9 +398,80 @@ uint64_t alloc_hint(const Bytes &img) {
 	return m;
 }
 
+// Preconditions under which the reader is known to run into undefined
+// behaviour or to abort the process. They are recognised on the image with a
+// cfitsio-like header walk (cards up to the END card, whatever lies in between)
+// and the read is then first tried in a forked child:
+//  named-hdu-not-1d    read_fits_core looks the knot / extent extensions up by
+//                      name and reads them with a one-element pixel index;
+//                      cfitsio copies NAXIS elements from it (stack over-read)
+//                      when the HDU found (possibly the primary HDU, if an
+//                      EXTNAME card ended up in its header) has NAXIS > 1
+//  long-order-value    an ORDER/ORDERn value of >= 28 characters that is not an
+//                      integer overflows cfitsio's 81-byte message buffer in
+//                      ffc2j (strncat; glibc's fortify check aborts the process)
+//  order-wraps         ORDERn >= 2^31: `2*order` wraps in 32 bits, the knot
+//                      array is allocated too small and addressed at +order
+struct Hazard { std::string cls, what; };
+Hazard reader_hazard(const Bytes &img) {
+	Hazard hz;
+	size_t off = 0, size = img.size();
+	int hdu = 0;
+	auto value_of = [&](const uint8_t *card) -> std::string {
+		std::string v((const char *)card + 10, 70);
+		size_t a = v.find_first_not_of(' ');
+		if (a == std::string::npos) return "";
+		v = v.substr(a);
+		if (v[0] == '\'') { size_t e = v.find('\'', 1); return v.substr(0, e == std::string::npos ? v.size() : e + 1); }
+		size_t sl = v.find('/');
+		if (sl != std::string::npos) v = v.substr(0, sl);
+		return rstrip(v);
+	};
+	while (off + 2880 <= size && hdu < 1000) {
+		long long naxis = -1, bitpix = 0, pcount = 0, gcount = 1;
+		long long dims[8] = {0, 0, 0, 0, 0, 0, 0, 0};
+		bool named = false, end = false;
+		std::string nm;
+		size_t p = off;
+		for (; p + 80 <= size; p += 80) {
+			const uint8_t *c = img.data() + p;
+			if (memcmp(c, "END     ", 8) == 0) { end = true; p += 80; break; }
+			if (c[8] != '=') continue;
+			if (memcmp(c, "NAXIS   ", 8) == 0) { if (naxis < 0) naxis = atoll(value_of(c).c_str()); }
+			else if (memcmp(c, "NAXIS", 5) == 0 && c[5] >= '1' && c[5] <= '8' && c[6] == ' ') { if (!dims[c[5] - '1']) dims[c[5] - '1'] = atoll(value_of(c).c_str()); }
+			else if (memcmp(c, "BITPIX  ", 8) == 0) { if (!bitpix) bitpix = atoll(value_of(c).c_str()); }
+			else if (memcmp(c, "PCOUNT  ", 8) == 0) pcount = atoll(value_of(c).c_str());
+			else if (memcmp(c, "GCOUNT  ", 8) == 0) gcount = atoll(value_of(c).c_str());
+			else if (memcmp(c, "EXTNAME ", 8) == 0 || memcmp(c, "HDUNAME ", 8) == 0) {
+				std::string n = value_of(c);
+				std::string u;
+				for (char ch : n) if (ch != '\'' ) u += (char)toupper((unsigned char)ch);
+				u = rstrip(u);
+				if (u == "EXTENTS" || (u.compare(0, 5, "KNOTS") == 0 && u.size() > 5)) { named = true; nm = u; }
+			} else if (hdu == 0 && memcmp(c, "ORDER", 5) == 0) {
+				std::string v = value_of(c);
+				bool digits = !v.empty();
+				for (size_t i = 0; i < v.size(); i++) if (!(isdigit((unsigned char)v[i]) || (i == 0 && (v[i] == '-' || v[i] == '+')))) digits = false;
+				if (!digits && v.size() >= 28 && hz.cls.empty()) { hz.cls = "long-order-value"; hz.what = "an ORDER card carries a " + std::to_string(v.size()) + "-character non-integer value"; }
+				if (digits && v.size() >= 10 && v.size() < 19 && atoll(v.c_str()) >= 2147483648LL && atoll(v.c_str()) <= 4294967295LL && hz.cls.empty()) { hz.cls = "order-wraps"; hz.what = "an ORDER card carries " + v + " (2*order wraps in 32 bits)"; }
+			}
+		}
+		if (!end) break;
+		if (named && naxis != 1) { hz.cls = "named-hdu-not-1d"; hz.what = "HDU " + std::to_string(hdu) + " named " + nm + " has NAXIS=" + std::to_string(naxis); return hz; }
+		long double n = naxis > 0 ? 1 : 0;
+		for (long long i = 0; i < naxis && i < 8; i++) n *= (long double)dims[i];
+		long double bytes = (long double)(bitpix < 0 ? -bitpix : bitpix) / 8 * (long double)gcount * ((long double)pcount + n);
+		if (bytes < 0 || bytes > 1e15L) break;
+		size_t hdr_end = (p - off + 2879) / 2880 * 2880 + off;
+		off = hdr_end + (size_t)(((unsigned long long)bytes + 2879) / 2880 * 2880);
+		hdu++;
+	}
+	return hz;
+}
+
 // verdict on an image found on disk after a crash or a failed write (C08)
-enum Verdict { V_REJECTED, V_EQUAL, V_DIFFERENT };
-const char *verdict_name(Verdict v) { return v == V_REJECTED ? "rejected" : v == V_EQUAL ? "equal" : "different"; }
+enum Verdict { V_REJECTED, V_EQUAL, V_DIFFERENT, V_READER_CRASH };
+const char *verdict_name(Verdict v) { return v == V_REJECTED ? "rejected" : v == V_EQUAL ? "equal" : v == V_DIFFERENT ? "different" : "reader-crash"; }
 
 struct ImageCheck {
 	Verdict v = V_REJECTED;
@@ -413,10 +484,36 @@ struct ImageCheck {
 ImageCheck check_image(Env &env, const disk::Image &img, const TableSpec &table, bool mem) {
 	ImageCheck r;
 	if (!img.exists) { r.what = "no file"; return r; }
-	// cfitsio's memory driver reads whole 2880-byte records: an image whose size is
-	// not a multiple of 2880 makes it read past the caller's buffer (reported under
-	// C07); the oracle-side reads of such images go through the disk reader
-	if (mem && img.bytes.size() % 2880) { mem = false; env.ctx.count("c08:mem_verify_rerouted_to_disk"); }
+	// cfitsio's memory driver does not check record reads against the buffer size:
+	// an image that is shorter than its headers claim makes it read past the
+	// caller's buffer (reported under C07). Oracle-side reads use the memory
+	// reader only for images that are structurally complete; the others go
+	// through the disk reader, which sees a proper end of file.
+	if (mem) {
+		std::vector<Hdu> hd; std::string e2;
+		if (img.bytes.size() % 2880 || !scan_hdus(img.bytes, hd, e2)) { mem = false; env.ctx.count("c08:mem_verify_rerouted_to_disk"); }
+	}
+	// an image on which the reader is known to run into undefined behaviour is
+	// first read in a forked child; if the child dies the verdict is "reader-crash"
+	// (C07's finding; for C08 such an image is not "loaded as a different table")
+	{
+		Hazard hz = reader_hazard(img.bytes);
+		if (!hz.cls.empty()) {
+			env.ctx.count("probe:verify_hazard_probed_in_child");
+			std::string how = dies_in_child([&]() {
+				Ledger l2; Ledger::Scope sc2(l2);
+				disk::put("/sim/crash.fits", img.bytes);
+				alignas(Tab) static unsigned char raw[sizeof(Tab)];
+				Tab *t = new (raw) Tab(SimAlloc<void>(l2.new_owner()));
+				try { t->read_fits("/sim/crash.fits"); } catch (...) {}
+			});
+			if (!how.empty()) { r.v = V_READER_CRASH; r.what = hz.what + ": " + how; env.ctx.count("probe:verify_reader_crash"); return r; }
+		}
+	}
+	if (const char *dump = getenv("PSV_DUMP")) {   // debugging aid: the image about to be read
+		std::ofstream f(dump, std::ios::binary);
+		f.write((const char *)img.bytes.data(), (std::streamsize)img.bytes.size());
+	}
 	TabBox box(env.L);
 	Tab &t = box.make();
 	ReadOutcome ro;
@@ -1374,11 +1471,34 @@ void IoHarness::exec_c07(const Json &plan, Env &env) {
 	C07Case c{*this, env, plan, base, valid_table, applied ? "corrupt" : "valid", cclass};
 	bool c_api = reader == "c_read" || reader == "c_read_mem";
 	// Memory readers hand the caller's buffer to cfitsio's memory driver, which
-	// fetches whole 2880-byte records. With a buffer whose size is not a multiple of
-	// 2880 that is a read beyond the buffer; whether it happens is established in a
-	// forked child so that the batch survives the sanitizer abort.
-	if ((reader == "read_fits_mem" || reader == "c_read_mem") && img.size() % 2880 != 0) {
-		ctx.count("probe:mem_image_not_multiple_of_2880");
+	// fetches whole 2880-byte records wherever the headers send it and does not
+	// compare the position with the buffer size: an image that is shorter than its
+	// headers claim (or not a multiple of 2880) makes it read beyond the buffer.
+	// Whether that happens for this image is established in a forked child, so
+	// that the batch process survives the sanitizer abort.
+	{
+		Hazard hz = reader_hazard(img);
+		if (!hz.cls.empty()) {
+			ctx.count("probe:read_hazard_probed_in_child");
+			std::string how = dies_in_child([&]() {
+				Ledger l2; Ledger::Scope sc2(l2);
+				disk::put("/sim/in.fits", img);
+				if (c_api) { struct splinetable h{nullptr}; readsplinefitstable("/sim/in.fits", &h); }
+				else { alignas(Tab) static unsigned char raw[sizeof(Tab)]; Tab *t = new (raw) Tab(SimAlloc<void>(l2.new_owner())); try { t->read_fits("/sim/in.fits"); } catch (...) {} }
+			});
+			ctx.log.ev("guarded read (%s: %s): %s", hz.cls.c_str(), hz.what.c_str(), how.empty() ? "survived" : how.c_str());
+			if (!how.empty()) {
+				std::string opn = reader == "c_read" ? "readsplinefitstable" : reader == "c_read_mem" ? "readsplinefitstable_mem" : reader;
+				env.state(opn, c.fk, "reader-crash");
+				ctx.violate("C07|safety|" + opn + "|" + c.fk + "|reader-dies:" + hz.cls,
+				            "the reader dies in a forked probe (" + how + ") on an image where " + hz.what);
+				return;
+			}
+		}
+	}
+	bool suspicious = img.size() % 2880 != 0 || applied > 0;
+	if ((reader == "read_fits_mem" || reader == "c_read_mem") && suspicious) {
+		ctx.count("probe:mem_read_probed_in_child");
 		std::string how = dies_in_child([&]() {
 			Ledger l2; Ledger::Scope sc2(l2);
 			Bytes copy = img;
@@ -1391,8 +1511,9 @@ void IoHarness::exec_c07(const Json &plan, Env &env) {
 		if (!how.empty()) {
 			std::string opn = reader == "c_read_mem" ? "readsplinefitstable_mem" : "read_fits_mem";
 			env.state(opn, c.fk, "overread");
-			ctx.violate("C07|safety|" + opn + "|" + c.fk + "|reads-beyond-buffer-size-not-multiple-of-2880",
-			            opn + " of a " + std::to_string(img.size()) + "-byte buffer dies in a forked probe (" + how + "): the FITS memory driver reads whole 2880-byte records past the end of the caller's buffer");
+			ctx.violate("C07|safety|" + opn + "|" + c.fk + "|reads-beyond-buffer",
+			            opn + " of a " + std::to_string(img.size()) + "-byte buffer (" + (img.size() % 2880 ? "not a" : "a") + " multiple of 2880) dies in a forked probe (" + how +
+			            "): the FITS memory driver reads whole 2880-byte records past the end of the caller's buffer");
 			return;
 		}
 	}
